@@ -383,6 +383,51 @@ fn teardown_block(b: u64) -> BlockReport {
     rep
 }
 
+/// Thread hand-over, run as ONE block so that no other thread of the harness converts anything meanwhile: thread A walks
+/// across a second boundary (in both constructors) and ends; a fresh thread B then asks about the second A ticked into,
+/// the one before and the one after.  64 boundaries, both walking directions.
+fn handover_block(_b: u64) -> BlockReport {
+    let mut rep = BlockReport::default();
+    for k in 0..64u64 {
+        let s = crate::util::splitmix64(0x4A2D ^ k) % ((1u64 << 32) - 8) + 4;
+        let up = k % 2 == 0;
+        let a = std::thread::spawn(move || {
+            let walk: Vec<u64> = if up { vec![s * 1000 - 100, s * 1000 + 250] } else { vec![s * 1000 + 250, s * 1000 - 100] };
+            for ms in walk {
+                std::hint::black_box(guard(|| (DltTimeStamp::from_ms(ms), DltTimeStamp::from_us(ms * 1000 + 1))).ok());
+            }
+        });
+        let _ = a.join();
+        let fresh = std::thread::spawn(move || {
+            let mut out = vec![];
+            for c in [
+                Case { unit: 1000, x: s * 1000 + 300 },
+                Case { unit: 1_000_000, x: s * 1_000_000 + 300_000 },
+                Case { unit: 1000, x: (s - 1) * 1000 + 999 },
+                Case { unit: 1_000_000, x: (s - 1) * 1_000_000 + 999_999 },
+                Case { unit: 1000, x: (s + 1) * 1000 },
+            ] {
+                out.push((c.clone(), check(&c)));
+            }
+            out
+        });
+        for (c, r) in fresh.join().unwrap_or_default() {
+            rep.evaluations += 1;
+            match r {
+                Ok(_) => rep.nontrivial += 1,
+                Err(mut v) => {
+                    if rep.violation.is_none() {
+                        v.msg = format!("{} (among the first conversions of a fresh thread, right after another thread walked {} across the boundary of second {})", v.msg, if up { "up" } else { "down" }, s);
+                        rep.violation = Some((json!({"handover_block": 0, "failing_call": c}), v));
+                    }
+                }
+            }
+        }
+    }
+    rep.classes.push(("first-conversions-of-a-fresh-thread", rep.evaluations));
+    rep
+}
+
 pub fn run(run: &Run) {
     run.rule(
         "cases = (constructor, u64 input with input/unit-per-second < 2^32): enumerated boundaries (0, unit multiples +-1, powers of two +-1, \
@@ -522,6 +567,7 @@ pub fn run(run: &Run) {
     run.enumerate("call-histories", 4096, false, history_block);
     // (5) conversions made from a thread-local destructor while a thread winds down ("building it never panics")
     run.enumerate("thread-teardown", 48, false, teardown_block);
+    run.enumerate("thread-hand-over", 1, false, handover_block);
     run.random(
         "random",
         run.cases(2_000_000, 40_000_000),
@@ -539,6 +585,13 @@ pub fn replay(section: &str, case: &Value) -> Option<CheckResult> {
         return Some(match rep.violation {
             Some((_, v)) => Err(v),
             None => Ok(Pass::new(true).class("call-history")),
+        });
+    }
+    if section == "thread-hand-over" {
+        let rep = handover_block(0);
+        return Some(match rep.violation {
+            Some((_, v)) => Err(v),
+            None => Ok(Pass::new(true).class("thread-hand-over")),
         });
     }
     if section == "thread-teardown" {
